@@ -24,7 +24,8 @@ RULE = ("Histories and schedules. Hypothesis generates a definition (several bra
         "recorded (a consumer may do anything with it). Additionally every stream's output under its own options is "
         "judged against the reference decoder (unrecognised packets must appear as error objects in their position "
         "whenever reporting is on, whatever the other options; length-mismatched packets are withheld exactly when "
-        "bad packets are excluded). Non-trivial: >= 2 generators advanced in non-sequential order over a stream holding >= 1 "
+        "bad packets are excluded), and every raw packet yielded with ccsds_headers_only=True is wrapped in a CCSDSPacket "
+        "and parsed twice from the same object, which must give the same result twice. Non-trivial: >= 2 generators advanced in non-sequential order over a stream holding >= 1 "
         "packets of >= 2 different outcome kinds, one of them unrecognised or length-mismatched.")
 ASSUMPTIONS = ["decoding errors common to stream and singleton are out of this check's reach (left to C01)"]
 EXHAUSTIVE = {"quick": False, "thorough": False}
@@ -169,6 +170,30 @@ def check_case(ctx, case):
             return ctx.fail("stream-differs-from-reference",
                             f"generator {gi} (options {g['opts']}, {len(pk_g)} packets): {r[1]}", case,
                             bucket="ref:" + r[0].split(" ")[0])
+    # raw packets handed out by the framer may be parsed on their own, more than once, with the same result
+    from space_packet_parser import packets as _pk
+    from space_packet_parser.exceptions import UnrecognizedPacketTypeError as _Unrec
+    try:
+        raws = list(defn.packet_generator(b"".join(packets), ccsds_headers_only=True))
+    except Exception as e:
+        return ctx.fail("headers-only-raised", f"packet_generator(ccsds_headers_only=True) raised {e!r}", case,
+                        bucket="headers-only-raised:" + exc_sig(e))
+    for i, raw in enumerate(raws[:len(packets)]):
+        outs = []
+        for _ in range(2):
+            try:
+                with warnings.catch_warnings():
+                    warnings.simplefilter("ignore")
+                    outs.append(sig_item(defn.parse_ccsds_packet(_pk.CCSDSPacket(raw_data=raw))))
+            except _Unrec as e:
+                outs.append(sig_item(e))
+            except Exception as e:  # noqa: BLE001
+                outs.append(("exc", type(e).__name__))
+        ctx.cls("raw packets parsed twice")
+        if outs[0] != outs[1] or bytes(raw) != packets[i]:
+            return ctx.fail("reparse-differs", f"raw packet {i} ({packets[i].hex()[:60]}) parsed twice from the same "
+                                               f"RawPacketData object: first {str(outs[0])[:300]}, second {str(outs[1])[:300]}",
+                            case)
     seen_ids = {}
     for step, gi in enumerate(order):
         g = gens[gi]
